@@ -146,6 +146,17 @@ impl ModuleQuantification {
     }
 }
 
+// the low 64 bits of an integer in two's complement.
+fn low_u64(n: &Integer) -> u64 {
+    let (sign, words) = n.as_sign_words();
+    let low = words.first().copied().unwrap_or(0) as u64;
+
+    match sign {
+        Sign::Positive => low,
+        Sign::Negative => low.wrapping_neg(),
+    }
+}
+
 fn pstr_segment_char_count_and_tail(heap: &Heap, pstr_loc: usize) -> (usize, usize) {
     let char_iter = heap.char_iter(pstr_loc);
 
@@ -6931,19 +6942,18 @@ impl Machine {
 
         match Number::try_from((seed, &self.machine_st.arena.f64_tbl)) {
             Ok(Number::Fixnum(n)) => {
-                let n: u64 = Integer::from(n).try_into().unwrap();
+                // any integer is a seed: its low 64 bits in two's complement.
+                let n = n.get_num() as u64;
                 let rng: StdRng = SeedableRng::seed_from_u64(n);
                 self.rng = rng;
             }
             Ok(Number::Integer(n)) => {
-                let n: u64 = (&*n).try_into().unwrap();
-                let rng: StdRng = SeedableRng::seed_from_u64(n);
+                let rng: StdRng = SeedableRng::seed_from_u64(low_u64(&n));
                 self.rng = rng;
             }
             Ok(Number::Rational(n)) => {
                 if n.denominator() == &UBig::ONE {
-                    let n: u64 = n.numerator().try_into().unwrap();
-                    let rng: StdRng = SeedableRng::seed_from_u64(n);
+                    let rng: StdRng = SeedableRng::seed_from_u64(low_u64(n.numerator()));
                     self.rng = rng;
                 }
             }
